@@ -401,6 +401,14 @@ func resolveReference(reference VocabularyReference, registry *RDFRegistry, ctx 
 	} else if _, ok := vocab.Properties[reference.Name]; ok {
 		return nil
 	} else if _, ok := vocab.Values[reference.Name]; ok {
+		// The value is already known from an earlier vocabulary, but a
+		// reference to rdf:langString still has to mark the properties of
+		// this vocabulary as natural language maps.
+		if n, e := registry.getNode(name); e == nil {
+			if m, ok := n.(interface{ markNaturalLanguageMaps(*ParsingContext) }); ok {
+				m.markNaturalLanguageMaps(ctx)
+			}
+		}
 		return nil
 	} else if n, e := registry.getNode(name); e != nil {
 		return e
